@@ -4,7 +4,7 @@
    is loaded with (default, or p again), c = a component of the package, c' = the component as stored. *)
 From Coq Require Import String Ascii List Bool ZArith Arith.
 Import ListNotations.
-Require Import V.Lib.PyStr V.Lib.JTree V.Conf.Model V.Conf.Proofs V.Reload.Model V.Reload.Proofs.
+Require Import V.Lib.PyStr V.Lib.JTree V.Conf.Model V.Conf.Proofs V.Reload.Model V.Reload.Proofs V.Reload.Obs V.Reload.Idem V.Reload.IdemDoc.
 Open Scope string_scope.
 
 (* Variables: every variable of every component has, in the reloaded document, the value the package gives it on p
@@ -88,6 +88,95 @@ Theorem C07_convert_idempotent : forall k x y, conv_leaf k x = Some y -> conv_le
 Proof. exact conv_leaf_idem. Qed.
 Print Assumptions C07_convert_idempotent.
 
+(* ------------------------------------------------------------------ whole trees (coq/Reload/Obs.v, Idem.v)
+   [jeq a b]: a and b are the same nested mapping - the same observation (nothing / leaf value / dictionary) at every
+   path, i.e. equal up to the order of keys inside dictionaries.  [clean d p sk c]: the blueprints and the platform
+   override that are folded into component c hold options only - no `stage`, `override`, `$import`,
+   workflowAttributes.repeatInterval / isRepeat (the last two are necessary: C07_repeat_refuted, finding F7d). *)
+
+(* override_object, whenever it does not raise, acts path by path *)
+Theorem C07_override_pointwise : forall pi a b r,
+  override a b = Some r -> obs pi r = comb (obs pi a) (obs pi b).
+Proof. exact override_obs. Qed.
+Print Assumptions C07_override_pointwise.
+
+(* The hypothesis of C07_variables holds of EVERY stored component, with or without an override section *)
+Theorem C07_stored_variables_any : forall d p sk c c' q,
+  is_import c = false -> comp_stage_key c = Some sk ->
+  store_comp_raw d p c = Some c' ->
+  clean d p sk c -> q = DEF \/ q = p ->
+  stored_vars_ok p q c c'.
+Proof.
+  intros d p sk c c' q Hi Hs Hc Hcl Hq.
+  destruct (fold_override (Some (JDict [])) (store_layers d p sk c)) as [f|] eqn:Hf.
+  - exact (stored_vars_ok_clean d p sk c c' f Hi Hs Hc Hf Hcl q Hq).
+  - unfold store_comp_raw in Hc. rewrite Hi, Hs, Hf in Hc. discriminate.
+Qed.
+Print Assumptions C07_stored_variables_any.
+
+(* The layered (raw) configuration of a component in the reloaded document - [builtin; merged global blueprint; merged
+   stage blueprint; X; Y; stored component (+ its override when q = p)] with the variables vl' - is, AS A TREE, the
+   layered configuration of the package on p.  No shape hypothesis: wherever both layerings succeed they agree at every
+   path, workflowAttributes.isRepeat included.  (vl' / vl: C07_variables + C07_stored_variables_any give the
+   hypothesis on the variables.) *)
+Theorem C07_config_tree : forall dflt d p q sk c c' bg bs X Y vl vl' r r',
+  is_import c = false -> comp_stage_key c = Some sk ->
+  store_comp_raw d p c = Some c' -> clean d p sk c ->
+  fl_bp_global d p = Some bg -> fl_bp_stage d p sk = Some bs ->
+  ((X = bg /\ Y = bs) \/ (X = JDict [] /\ Y = JDict [])) ->
+  q = DEF \/ q = p ->
+  alist_eq (layer_vars vl') (layer_vars vl) ->
+  merged_of (opt_layers dflt d p sk c) vl = Some r ->
+  merged_of ([builtin dflt; bg; bs; X; Y; comp_layer c'] ++ comp_override q c') vl' = Some r' ->
+  jeq r' r.
+Proof. exact reload_merged_jeq. Qed.
+Print Assumptions C07_config_tree.
+
+(* Loading and storing again does not change the stored component: d2 is any document whose default platform holds the
+   merged blueprints of d and whose platform p holds them again (p = default) or nothing (the flattened document);
+   storing the stored component c' from d2 gives c' again, as a tree. *)
+Theorem C07_component_idempotent : forall d d2 p sk c c' c'' bg bs,
+  is_import c = false -> comp_stage_key c = Some sk ->
+  store_comp_raw d p c = Some c' -> clean d p sk c ->
+  fl_bp_global d p = Some bg -> fl_bp_stage d p sk = Some bs ->
+  bp_global d2 DEF = bg -> bp_stage d2 DEF sk = bs ->
+  ((bp_global d2 p = bg /\ bp_stage d2 p sk = bs) \/ (bp_global d2 p = JDict [] /\ bp_stage d2 p sk = JDict [])) ->
+  store_comp_raw d2 p c' = Some c'' ->
+  jeq c'' c'.
+Proof. exact store_comp_idem. Qed.
+Print Assumptions C07_component_idempotent.
+
+(* ... and the other sections of the stored document: flattening the reloaded document (f_doc fd with the environments
+   {default: f_envs fd}, selected platform p again, user variables patched in again) gives the same global variables, the
+   same stage variables (as finite maps), the same global blueprint (as a tree) and the same environments. *)
+Theorem C07_variables_idempotent : forall d envs u p fd sk,
+  flatten_raw d envs u p = Some fd ->
+  fl_global (f_doc fd) p = fl_global d p /\
+  (existsb (String.eqb sk) (stage_keys (d_components d)) = true ->
+   alist_eq (fl_stage (f_doc fd) u p sk) (fl_stage d u p sk)).
+Proof.
+  intros d envs u p fd sk H. split; [exact (reflatten_global d envs u p fd H)|exact (reflatten_stage d envs u p fd sk H)].
+Qed.
+Print Assumptions C07_variables_idempotent.
+
+Theorem C07_blueprint_idempotent : forall d envs u p fd bg bg2,
+  flatten_raw d envs u p = Some fd -> is_dict (bp_global d DEF) ->
+  fl_bp_global d p = Some bg -> fl_bp_global (f_doc fd) p = Some bg2 -> jeq bg2 bg.
+Proof. exact reflatten_bp_global. Qed.
+Print Assumptions C07_blueprint_idempotent.
+
+Theorem C07_environments_idempotent : forall envs p,
+  alist_eq (fl_envs (JDict [(DEF, JDict (fl_envs envs p))]) p) (fl_envs envs p).
+Proof. exact reflatten_envs. Qed.
+Print Assumptions C07_environments_idempotent.
+
+(* The value part: text that holds no reference (no '%': what interpolation leaves behind when every reference was
+   resolved) is a fixed point of the tolerant interpolation of instance(), in every context *)
+Theorem C07_interpolation_closed : forall ctx s, no_pct s ->
+  interp_tol ctx s = Ok s /\ fill_tol ctx (JStr s) = Ok (JStr s).
+Proof. intros ctx s H. split; [exact (interp_tol_plain ctx s H)|exact (fill_tol_plain_str ctx s H)]. Qed.
+Print Assumptions C07_interpolation_closed.
+
 (* non-vacuity: a two-platform package with a user variable; the flattened document exists, the stage filter is
    exercised (g is defined on the default stage and globally on p), the component is stored with the blueprints folded
    in, the environment is merged, and the hypotheses of the theorems hold of it *)
@@ -124,11 +213,16 @@ Example C07_nonvacuous :
      end) /\
   existsb (String.eqb "0") (stage_keys (d_components ex_doc)) = true /\
   uniq (envs_of ex_envs "p") /\
-  Forall (fun l => nodict (get_path ["command"; "arguments"] l)) (store_layers ex_doc "p" "0" (hd JNull (d_components ex_doc))).
+  Forall (fun l => nodict (get_path ["command"; "arguments"] l)) (store_layers ex_doc "p" "0" (hd JNull (d_components ex_doc))) /\
+  clean ex_doc "p" "0" (hd JNull (d_components ex_doc)) /\
+  is_dict (bp_global ex_doc DEF) /\ no_pct "echo-p".
 Proof.
-  split; [|split; [|split]].
+  split; [|split; [|split; [|split; [|split; [|split]]]]].
   - eexists. split; [vm_compute; reflexivity|]. vm_compute. repeat split; reflexivity.
   - vm_compute. reflexivity.
   - unfold uniq. vm_compute. repeat constructor. intros [].
   - vm_compute. repeat constructor.
+  - unfold clean. vm_compute. repeat constructor.
+  - eexists. vm_compute. reflexivity.
+  - reflexivity.
 Qed.
